@@ -506,6 +506,7 @@ func TestCheck(t *testing.T) {
 			add("meta-labels", func(sc string) func(r *explore.Run) { return metaBody(mode, spL, rep, sc) })
 			add("meta-annotations", func(sc string) func(r *explore.Run) { return metaBody(mode, spA, rep, sc) })
 		}
+		list = append(list, report.Scenario{Name: "user-edits-during-first-reconcile", Bound: 0, Wrap: report.Bubble(t), Body: func(r *explore.Run) { bindBody(r, rep, "user-edits-during-first-reconcile") }})
 		return list
 	}
 	list := scenarios(report.Thorough())
